@@ -186,6 +186,12 @@ def run(ctx):
                 ctx.spec(lf, '1 / np.sinc(np.min([np.modf((f_start - raw_voltage_backend.fch1) / (raw_voltage_backend.chan_bw / fftlength))[0], '
                              '1 - np.modf((f_start - raw_voltage_backend.fch1) / (raw_voltage_backend.chan_bw / fftlength))[0]]))',
                          typed_params={'raw_voltage_backend': B}), node=lf.node, construct='return get_leakage_factor')
+    # a tone is a cosine of the stream's time axis: it sits at its header frequency in the recording only if that axis is continuous
+    # across the many short requests (sub-blocks) a recording is made of -- one repeated or skipped time stamp per request scales
+    # every baseband frequency by (N -+ 1)/N
+    from .c10 import stream_time_step
+    ctx.clause = 'D7'
+    stream_time_step(ctx, ' [tone registration across sub-block requests]')
     # registration "from the file's own header": the header is the one on disk at the time of the call
     from .common import memo_obligation
     memo_obligation(ctx, ctx.func('voltage.raw_utils.read_header'), "the reducer registers frequencies from the file's own header, re-read on every call")
